@@ -161,13 +161,34 @@ def _render(k: int, f: int, minimal: bool = False) -> str:
     return f"{sign}{ip}.{frac}"
 
 
-COORD_STYLES = ("int_small", "int", "int_big", "int_exp", "dec1", "dec2",
-                "dec3", "dec_small", "dyadic", "dyadic", "tie_line")
+COORD_STYLES = ("int_small", "int", "int_big", "int_exp", "exp_bare", "dec1",
+                "dec2", "dec3", "dec_small", "dyadic", "dyadic", "tie_line")
 
 
 @st.composite
 def planar_points(draw: Any, n: int) -> tuple[str, list[list[str]]]:
     style = draw(st.sampled_from(COORD_STYLES))
+    if style == "exp_bare":
+        # one significant digit times a power of ten, written without a
+        # decimal point the way repr(float) does for tiny / huge values:
+        # 5e2, 3e+02, 7E3, 4e-05 ...
+        out = []
+        seen_txt = set()
+        while len(out) < n:
+            pair = []
+            for _ in range(2):
+                d = draw(st.integers(0, 9))
+                k = draw(st.sampled_from([0, 1, 2, 3, 4, -5, -2]))
+                pair.append(draw(st.sampled_from([
+                    f"{d}e{k}", f"{d}e{k:+03d}", f"{d}E{k}",
+                    f"{d}e{k:+d}"])))
+            key = tuple(str(float(v)) for v in pair)
+            if key in seen_txt:
+                pair[0] = f"{len(out) + 1}e3"
+                key = (str(float(pair[0])), key[1])
+            seen_txt.add(key)
+            out.append(pair)
+        return style, out
     f = 0
     unit = 1  # all coordinates are multiples of unit / 10^f
     if style == "int_small":
